@@ -1,3 +1,125 @@
 import FiberModel.DriverUtil
--- stub driver for C08; replaced when the property's model lands
-def main : IO Unit := pure ()
+import FiberModel.C08.Spec
+/-
+Driver for C08. Case fields (after the id):   tree  req  mode  err  |  outcomes
+(formats: see harness/cmd/c08/main.go).
+
+The error funnel's input — the error the chain returned — is read from the observation (`chain=`,
+recorded by the outermost middleware); routing itself is C01's. modelObs = the single outcome the
+model's funnel produces for that chain result; implObs = the set of distinct outcomes the real code
+produced over all evaluations of the case (so any order dependence is an M=DIFF *and* an S=FAIL).
+Domain (rejected otherwise): literal lower-case prefixes, pairwise different appList keys.
+-/
+open B DriverUtil C04 C08
+
+def parseOwn (s : String) : Except String (Option Own) :=
+  if s == "-" then pure none
+  else
+    let body := (s.dropEnd 1).toString
+    match body.toNat? with
+    | some id =>
+      if s.endsWith "o" then pure (some ⟨id, false⟩)
+      else if s.endsWith "f" then pure (some ⟨id, true⟩)
+      else throw "outside-domain: own"
+    | none => throw "outside-domain: own"
+
+partial def parseNodes (toks : List String) (depth : Nat) : Except String (List Node × List String) :=
+  match toks with
+  | [] => if depth == 0 then pure ([], []) else throw "outside-domain: missing E"
+  | t :: rest =>
+    if t == "E" then (if depth == 0 then throw "outside-domain: unbalanced E" else pure ([], rest))
+    else match t.splitOn ":" with
+      | ["A", g, p, o, late] => do
+        let gp ← if g == "~" then pure none else match fromHex g with
+          | some x => pure (some x) | none => throw "outside-domain: group prefix"
+        let some p := fromHex p | throw "outside-domain: prefix"
+        let own ← parseOwn o
+        if late != "0" && late != "1" then throw "outside-domain: late"
+        let (ch, r) ← parseNodes rest (depth + 1)
+        let (more, r') ← parseNodes r depth
+        pure (Node.mk gp p own ch :: more, r')
+      | _ => throw s!"outside-domain: token {t}"
+
+def literalByte (c : Nat) : Bool := isLower c || isDigit c || c == 47 || c == 45 || c == 95 || c == 46
+
+mutual
+partial def nodeLiteral : Node → Bool
+  | .mk gp p _ ch => p.all literalByte && (match gp with | none => true | some g => g.all literalByte) && ch.all nodeLiteral
+end
+
+def parseErr (s : String) : Option Err :=
+  match s.splitOn ":" with
+  | ["E", c, m] => do let c ← c.toNat?; let m ← fromHex m; pure (.fiber c m)
+  | ["P", m] => do let m ← fromHex m; pure (.plain m)
+  | _ => none
+
+def parseSeen (s : String) : Option Seen := do
+  let kv := (s.splitOn ";").filterMap fun p => match p.splitOn "=" with
+    | [k, v] => some (k, v) | _ => none
+  let get (k : String) : Option String := (kv.find? (·.1 == k)).map (·.2)
+  let ch ← get "chain"
+  let calls ← get "calls"
+  let parseCall (c : String) : Option (Nat × Nat) :=
+    match c.splitOn "x" with
+    | [i, n] => do let i ← i.toNat?; let n ← n.toNat?; pure (i, n)
+    | _ => none
+  let calls ← if calls == "-" then some [] else (calls.splitOn ".").mapM parseCall
+  if ch == "none" then
+    pure ⟨none, calls, 0, []⟩
+  else
+    let e ← parseErr ch
+    let st ← (← get "status").toNat?
+    let body ← fromHex (← get "body")
+    pure ⟨some e, calls, st, body⟩
+
+def renderErr : Err → String
+  | .fiber c m => s!"E:{c}:{toHexField m}"
+  | .plain m => s!"P:{toHexField m}"
+
+def renderOutcome (chain : Option Err) (o : Option Outcome) : String :=
+  match chain, o with
+  | some e, some o =>
+    let cs := customCalls o
+    let c := if cs.isEmpty then "-" else ".".intercalate (cs.map fun (i, n) => s!"{i}x{n}")
+    s!"chain={renderErr e};calls={c};status={o.status};body={toHexField o.body}"
+  | _, _ => "chain=none;calls=-"
+
+def handleCase (f : List String) : Except String Verdict := do
+  match f with
+  | [id, tree, req, mode, _err, outcomes] =>
+    let toks := tree.splitOn ","
+    let rootOwn ← parseOwn (toks.headD "?")
+    let (nodes, rest) ← parseNodes toks.tail 0
+    if !rest.isEmpty then throw "outside-domain: trailing tokens"
+    if !(nodes.all nodeLiteral) then throw "outside-domain: non-literal prefix"
+    let path ← match req.splitOn ":" with
+      | [_, p] => match fromHex p with
+        | some p => pure p | none => throw "outside-domain: path"
+      | _ => throw "outside-domain: req"
+    if path.head? != some 47 || !(path.all literalByte) then throw "outside-domain: path"
+    if mode != "mw" && mode != "chain" then throw "outside-domain: mode"
+    let l := appList rootOwn nodes
+    let keys := l.map (·.pre)
+    if keys.eraseDups.length != keys.length then throw "outside-domain: two apps at the same appList key"
+    let outs := outcomes.splitOn "|"
+    let seen := outs.filterMap parseSeen
+    if seen.length != outs.length then throw "outside-domain: unparsable outcome"
+    let chain := (seen.head?).bind (·.chain)
+    let modelObs := renderOutcome chain (funnel l rootOwn path chain)
+    let spec := specViolation l rootOwn path seen
+    let cands := candidates l path
+    let hpOnly := l.filter fun m => !m.pre.isEmpty && m.pre.isPrefixOf path && !contains m.pre path
+    let chosen := selectSpec l path
+    let tags := [mode] ++
+      (match chain with | none => ["no-error"] | some (.fiber c _) => [s!"fiber-{c}"] | some (.plain _) => ["plain-error"]) ++
+      (if cands.length ≥ 2 then ["nt-several-candidates"] else if cands.length == 1 then ["one-candidate"] else ["no-candidate"]) ++
+      (if !hpOnly.isEmpty then ["nt-string-prefix-not-boundary"] else []) ++
+      (if (l.filter fun m => !m.pre.isEmpty && m.own.isNone && contains m.pre path).isEmpty then [] else ["nt-unconfigured-on-path"]) ++
+      (match chosen, rootOwn with
+        | some o, _ => if o.fails then ["mounted-handler-fails"] else ["mounted-handler"]
+        | none, some _ => ["root-handler"]
+        | none, none => ["default-handler"])
+    pure { id := id, modelObs := modelObs, implObs := outcomes, spec := spec, tags := tags }
+  | _ => throw s!"outside-domain: expected 6 fields, got {f.length}"
+
+def main : IO Unit := run handleCase
